@@ -227,7 +227,8 @@ storage_properties_set_dimension(struct StorageProperties* out,
 
     struct StorageDimension* dim = &out->acquisition_dimensions.data[index];
 
-    memset(dim, 0, sizeof(*dim)); // NOLINT
+    // release the name set by an earlier call, then reset the dimension
+    storage_dimension_destroy(dim);
 
     struct String s = { .is_ref = 1,
                         .nbytes = bytes_of_name,
